@@ -51,12 +51,12 @@ def gen_slots(rng):
     return n, skip, slots
 
 
-def gen_arbitrary_file(rng):
+def gen_arbitrary_file(rng, names=(b"env", b"cvs", b"kernel", b"end", b"end", b"x/y")):
     """any mix of rows: id gaps, no end, end in the middle, skipped tails"""
     ids = sorted(rng.sample(range(1, 40), rng.randint(0, 8)))
     out = HEADER if (ids or rng.random() < 0.5) else b""
     for i in ids:
-        name = rng.choice([b"env", b"cvs", b"kernel", b"end", b"end", b"x/y"])
+        name = rng.choice(names)
         skip = 1 if rng.random() < 0.3 else 0
         # exit fields as any writer of the file may leave them: 0, the shell's 1..255, in flight (-1), and other
         # non-zero values (negative, beyond 255): anything but 0 means the step did not complete successfully
@@ -79,17 +79,25 @@ def run(ctx):
     kinds = {}
     distinct = set()
     n_files = ctx.n(150, 3000)
+    rconf = os.path.join(work, "regress.conf")
+    open(rconf, "w").write('robsddir "%s"\nbsd-srcdir "%s"\ncvs-user "nobody"\nregress "bin/cat"\nregress "usr.bin/patch" no-parallel\n' % (work, work))
     for t in range(n_files):
         if t % 3 != 2:
             n, skip, slots = gen_slots(rng)
             content = concretise(slots, n)
             info = dict(kind="slots", n=n, skip=skip, slots=slots)
         else:
-            content = gen_arbitrary_file(rng)
-            info = dict(kind="arbitrary", file=content.decode())
+            # half of the arbitrary files are histories of robsd-regress (the last record is often a regress
+            # test that failed): the same decision table, whatever the mode
+            regress_mode = (t % 6 == 5)
+            content = gen_arbitrary_file(rng, (b"env", b"pkg-add", b"bin/cat", b"usr.bin/patch", b"bin/cat", b"end", b"dmesg")) if regress_mode else gen_arbitrary_file(rng)
+            info = dict(kind="arbitrary", file=content.decode(), mode="robsd-regress" if regress_mode else "canvas")
         with open(path, "wb") as f:
             f.write(content)
-        rc, out, err = sh.call('step_next "%s"' % path)
+        if info.get("mode") == "robsd-regress":
+            rc, out, err = sh.call('step_next "%s"' % path, mode="robsd-regress", extra=dict(ROBSDCONF=rconf))
+        else:
+            rc, out, err = sh.call('step_next "%s"' % path)
         got = "%d %s" % (rc, out.decode().strip() or "-")
         reqs.append("stepnext " + hexb(content))
         wants.append(got)
